@@ -776,7 +776,7 @@ theorem C09_pipeline_otf (cfg : Cfg) (ms : Masters) (o : PreOut) (hi : cfg.inst 
     (∃ A', AllAbs o.final A') ∧ compatible o.final = true := by
   unfold preprocessOTF at h
   rw [hi] at h
-  cases h1 : skipI none cfg.skip ⟨ms, some ms, [], cfg.orders⟩ with
+  cases h1 : skipI none cfg.skip ⟨ms, none, [], cfg.orders⟩ with
   | error e => rw [h1] at h; cases h
   | ok s1 =>
     rw [h1] at h; dsimp only at h
@@ -813,7 +813,7 @@ theorem C09_cu2qu_partial (cfg : Cfg) (ms : Masters) (o : PreOut) (hi : cfg.inst
     (∃ A', AllAbs o.final A') ∧ compatible o.final = true := by
   unfold preprocessTTF at h
   rw [hi] at h
-  cases h1 : skipI none cfg.skip ⟨ms, some ms, [], cfg.orders⟩ with
+  cases h1 : skipI none cfg.skip ⟨ms, none, [], cfg.orders⟩ with
   | error e => rw [h1] at h; cases h
   | ok s1 =>
     rw [h1] at h; dsimp only at h
